@@ -168,6 +168,8 @@ def _run(ix, R):
         # the checked total is the builtin sum of exactly that list
         tot_ev = [e for e in fl.of('assign') if not e.loops and not e.guards and atom_of(fl, e.value) is not None
                   and atom_of(fl, e.value).head == 'call' and atom_of(fl, e.value).extra[0] == 'fn:sum']
+        # (the same value bound twice - in an extracted helper and again in the caller - is one total)
+        tot_ev = [e for k_, e in enumerate(tot_ev) if not any(fl.tab.equal(e.value, o.value) for o in tot_ev[:k_])]
         if total is None or len(tot_ev) != 1 or not fl.tab.equal(tot_ev[0].value, total) or \
                 apps.recv_rf is None or not fl.tab.equal(unmut(fl, atom_of(fl, tot_ev[0].value).args[0]), apps.recv_rf):
             why.append('the total that is checked is not sum(list of the appended profiles)')
